@@ -150,10 +150,11 @@ def ty_signed(t):
 
 
 class Interp:
-    def __init__(self, prog, max_leaves=40000, max_steps=3000000):
+    def __init__(self, prog, max_leaves=3000, max_steps=1000000, total_steps=1500000):
         self.prog = prog
         self.max_leaves = max_leaves
         self.max_steps = max_steps
+        self.total_steps = total_steps
         self.stats = {'steps': 0, 'forks': 0, 'instances': set()}
         self.domain_hook = None
 
@@ -231,6 +232,8 @@ class Interp:
                     v = v[3][p[1]]
                 elif kind == 'tuple':
                     v = v[1][p[1]]
+                elif kind == 'closure':
+                    v = v[2][p[1]]
                 elif kind == 'model' and v[1] in ('rangeincl',):
                     v = v[2 + p[1]]
                 else:
@@ -239,7 +242,7 @@ class Interp:
                 idx = p[1]
                 if kind == 'array':
                     if not is_const(idx):
-                        raise Unsupported('symbolic index into local array: %s' % show_term(idx))
+                        idx = self.split_index(st, idx, len(v[1]))
                     if idx[2] >= len(v[1]):
                         raise Unsupported('index %d out of array bounds %d (missing bounds check?)' % (idx[2], len(v[1])))
                     v = v[1][idx[2]]
@@ -248,6 +251,8 @@ class Interp:
                     v = self.build_sym(st, v[2], nm)
                 elif kind == 'buf':
                     v = self.buf_read(st, v, idx)
+                elif is_const(idx) and idx[2] == 0 and kind in ('k', 'bv', 'lin', 'adt', 'tuple', 'symenum'):
+                    pass     # a place viewed as a one-element slice (slice::from_ref)
                 else:
                     raise Unsupported('index into %s' % kind)
             else:
@@ -287,6 +292,10 @@ class Interp:
                 vals = list(old[1])
                 vals[p[1]] = self._update(st, vals[p[1]], proj[1:], val)
                 return ('tuple', tuple(vals))
+            if kind == 'closure':
+                vals = list(old[2])
+                vals[p[1]] = self._update(st, vals[p[1]], proj[1:], val)
+                return ('closure', old[1], tuple(vals))
             if kind == 'model' and old[1] == 'rangeincl':
                 vals = list(old)
                 vals[2 + p[1]] = self._update(st, vals[2 + p[1]], proj[1:], val)
@@ -296,12 +305,14 @@ class Interp:
             if kind == 'array':
                 idx = p[1]
                 if not is_const(idx):
-                    raise Unsupported('symbolic index store into local array: %s' % show_term(idx))
+                    idx = self.split_index(st, idx, len(old[1]))
                 if idx[2] >= len(old[1]):
                     raise Unsupported('store index out of array bounds')
                 vals = list(old[1])
                 vals[idx[2]] = self._update(st, vals[idx[2]], proj[1:], val)
                 return ('array', tuple(vals))
+            if is_const(p[1]) and p[1][2] == 0 and kind in ('k', 'bv', 'lin', 'adt', 'tuple', 'symenum', 'uninit'):
+                return self._update(st, old, proj[1:], val)     # slice::from_mut view of a single place
             raise Unsupported('index update of %s' % kind)
         raise Unsupported('update projection %r' % (p,))
 
@@ -362,6 +373,21 @@ class Interp:
         for l, c in tb.items():
             d[l] = d.get(l, 0) - c
         return mk_lin(width(a), ca - cb, d)
+
+    def split_index(self, st, idx, n):
+        """A symbolic index into an array of n cells: enumerate its feasible values (forks), return the constant."""
+        idx = self.conc(st, idx)
+        if is_const(idx):
+            return idx
+        c0, ts = lin_of(idx)
+        lo, hi = st.know.interval(c0, ts)
+        lo, hi = max(lo, 0), min(hi, n - 1)
+        if hi - lo > 300:
+            raise Unsupported('symbolic index into an array: %s ranges over more than 300 cells' % show_term(idx))
+        for v in range(lo, hi + 1):
+            if self.need(st, mk_cmp('Eq', idx, K(width(idx), v))):
+                return K(USIZE, v)
+        raise Unsupported('index %s out of array bounds %d (missing bounds check?)' % (show_term(idx), n))
 
     def conc(self, st, t):
         """A term whose value the path facts pin to one number becomes that constant."""
@@ -529,6 +555,10 @@ class Interp:
             return v
         t = self.resolve_place(st, fr, place)
         if t[0] == 'sliceplace':
+            _, base, lo, hi = t
+            lo, hi = self.conc(st, lo), self.conc(st, hi)
+            if is_const(lo) and is_const(hi) and hi[2] - lo[2] <= 64:
+                return ('array', tuple(self.read(st, (base[0], base[1] + (('i', K(USIZE, i)),))) for i in range(lo[2], hi[2])))
             raise Unsupported('read of unsized place')
         return self.read(st, t)
 
@@ -637,6 +667,12 @@ class Interp:
             return
         t = self.resolve_place(st, fr, place)
         if t[0] == 'sliceplace':
+            _, base, lo, hi = t
+            lo, hi = self.conc(st, lo), self.conc(st, hi)
+            if v[0] == 'array' and is_const(lo) and is_const(hi) and hi[2] - lo[2] == len(v[1]):
+                for i, c in enumerate(v[1]):
+                    self.write(st, (base[0], base[1] + (('i', K(USIZE, lo[2] + i)),)), c)
+                return
             raise Unsupported('assignment to unsized place')
         self.write(st, t, v)
 
@@ -738,6 +774,8 @@ class Interp:
             src = r['src_ty']
             if v[0] == 'ref' and src['k'] in ('ref', 'ptr') and src['to']['k'] == 'array':
                 return ('slice', v[1], K(USIZE, 0), K(USIZE, src['to']['len']))
+            if v[0] == 'slice':
+                return v
             if v[0] == 'ref':
                 return ('dynref', v[1])
             raise Unsupported('unsize of %s' % v[0])
@@ -768,6 +806,12 @@ class Interp:
         w = ty_bits(at)
         signed = ty_signed(at)
         if op in ('BitAnd', 'BitOr', 'BitXor'):
+            if op == 'BitAnd':
+                for x, m_ in ((a, b), (b, a)):
+                    if is_const(m_) and x[0] == 'lin' and m_[2] & (m_[2] + 1) == 0:
+                        lo, hi = st.know.interval(x[2], dict(x[3]))
+                        if lo >= 0 and hi <= m_[2]:
+                            return x
             return bitop(op, a, b)
         if op in ('Shl', 'Shr', 'ShlUnchecked', 'ShrUnchecked'):
             if not is_const(b):
@@ -779,6 +823,20 @@ class Interp:
         if op in ('Div', 'Rem'):
             if is_const(a) and is_const(b) and b[2] != 0 and not signed:
                 return K(w, a[2] // b[2] if op == 'Div' else a[2] % b[2])
+            if is_const(b) and b[2] != 0 and not signed and a[0] in ('lin', 'bv'):
+                d_ = b[2]
+                c0, ts = lin_of(a)
+                if all(c % d_ == 0 for c in ts.values()):
+                    if op == 'Rem':
+                        return K(w, c0 % d_)
+                    if c0 % d_ == 0:
+                        return mk_lin(w, c0 // d_, {l: c // d_ for l, c in ts.items()})
+                lo, hi = st.know.interval(c0, ts)
+                if 0 <= lo and hi - lo <= 64:
+                    for v in range(lo, hi + 1):
+                        if self.need(st, mk_cmp('Eq', a, K(w, v))):
+                            return K(w, v // d_ if op == 'Div' else v % d_)
+                    raise Infeasible()
             raise Unsupported('%s on symbolic operands' % op)
         base = op.replace('WithOverflow', '').replace('Unchecked', '')
         if base in ('Add', 'Sub', 'Mul'):
@@ -829,8 +887,7 @@ class Interp:
         m = re.match(r'^<core::ops::(Range|RangeFrom|RangeFull|RangeTo|RangeInclusive|RangeToInclusive)(?:<usize>)? as core::slice::SliceIndex<\[T\]>>::(index|index_mut|get|get_mut)$', P)
         if m:
             kind, meth = m.group(1), m.group(2)
-            if meth in ('get', 'get_mut'):
-                raise Unsupported('model for SliceIndex::%s' % meth)
+            checked = meth in ('get', 'get_mut')
             rng, sl = args
             if sl[0] != 'slice':
                 raise Unsupported('SliceIndex on %s' % sl[0])
@@ -851,11 +908,33 @@ class Interp:
                 end = self.add(rng[3], K(USIZE, 1))
             else:
                 start, end = zero, self.add(rng[3][0], K(USIZE, 1))
+            ret_ty = self.prog.instances[callee['key']]['sig']['output'] if checked else None
             if not self.need(st, mk_cmp('Le', start, end)):
+                if checked:
+                    return True, ('adt', ret_ty['id'], 0, ())
                 raise Panic('slice_index', 'slice index starts at %s but ends at %s' % (show_term(start), show_term(end)))
             if not self.need(st, mk_cmp('Le', end, ln)):
+                if checked:
+                    return True, ('adt', ret_ty['id'], 0, ())
                 raise Panic('slice_index', 'range end index %s out of range for slice of length %s' % (show_term(end), show_term(ln)))
-            return True, ('slice', sl[1], self.add(sl[2], start), self.add(sl[2], end))
+            res = ('slice', sl[1], self.add(sl[2], start), self.add(sl[2], end))
+            if checked:
+                return True, ('adt', ret_ty['id'], 1, (res,))
+            return True, res
+        m = re.match(r'^<usize as core::slice::SliceIndex<\[T\]>>::(get|get_mut|index|index_mut)$', P)
+        if m:
+            meth = m.group(1)
+            idx, sl = args
+            if sl[0] != 'slice':
+                raise Unsupported('SliceIndex<usize> on %s' % sl[0])
+            inb = self.need(st, mk_cmp('Lt', idx, self.slice_len(sl)))
+            eref = ('ref', (sl[1][0], sl[1][1] + (('i', self.add(sl[2], idx)),)))
+            if meth in ('get', 'get_mut'):
+                ret_ty = self.prog.instances[callee['key']]['sig']['output']
+                return True, (('adt', ret_ty['id'], 1, (eref,)) if inb else ('adt', ret_ty['id'], 0, ()))
+            if not inb:
+                raise Panic('index', 'index out of bounds: the len is %s but the index is %s' % (show_term(self.slice_len(sl)), show_term(idx)))
+            return True, eref
         if P == 'core::slice::<impl [T]>::copy_from_slice':
             dst, src = args
             self.copy_from_slice(st, dst, src)
@@ -867,6 +946,37 @@ class Interp:
         if re.match(r"^core::array::<impl core::iter::IntoIterator for &'a (mut )?\[T; N\]>::into_iter$", P):
             return True, ('model', 'iter', self.as_slice(st, args[0], callee), K(USIZE, 0))
         if P in ("<core::slice::Iter<'a, T> as core::iter::Iterator>::next", "<core::slice::IterMut<'a, T> as core::iter::Iterator>::next"):
+            ref = args[0]
+            it = self.read(st, ref[1])
+            ret_ty = self.prog.instances[callee['key']]['sig']['output']
+            newit, item = self.model_next(st, it)
+            if item is None:
+                return True, ('adt', ret_ty['id'], 0, ())
+            self.write(st, ref[1], newit)
+            return True, ('adt', ret_ty['id'], 1, (item,))
+        if P.endswith('<impl core::iter::IntoIterator for [T; N]>::into_iter'):
+            if args[0][0] != 'array':
+                raise Unsupported('into_iter of %s' % args[0][0])
+            return True, ('model', 'arrayiter', args[0], K(USIZE, 0))
+        if P == '<core::array::IntoIter<T, N> as core::iter::Iterator>::next':
+            ref = args[0]
+            it = self.read(st, ref[1])
+            ret_ty = self.prog.instances[callee['key']]['sig']['output']
+            newit, item = self.model_next(st, it)
+            if item is None:
+                return True, ('adt', ret_ty['id'], 0, ())
+            self.write(st, ref[1], newit)
+            return True, ('adt', ret_ty['id'], 1, (item,))
+        m = re.match(r"^<core::slice::Iter(?:Mut)?<'a, T> as core::iter::Iterator>::(fold|all|any|position|find|for_each)$", P)
+        if m:
+            return True, self.iter_closure_method(st, m.group(1), callee, args)
+        if P in ('core::slice::<impl [T]>::chunks_exact', 'core::slice::<impl [T]>::chunks_exact_mut',
+                 'core::slice::<impl [T]>::chunks', 'core::slice::<impl [T]>::chunks_mut'):
+            sl, size = args
+            if sl[0] != 'slice' or not is_const(size) or size[2] == 0:
+                raise Unsupported('chunks with a symbolic or zero size')
+            return True, ('model', 'chunks', sl, size, K(USIZE, 0), P.split('::')[-1].startswith('chunks_exact'))
+        if re.match(r"^<core::slice::Chunks(Exact)?(Mut)?<'a, T> as core::iter::Iterator>::next$", P):
             ref = args[0]
             it = self.read(st, ref[1])
             ret_ty = self.prog.instances[callee['key']]['sig']['output']
@@ -887,6 +997,12 @@ class Interp:
                 return True, ('adt', ret_ty['id'], 0, ())
             self.write(st, ref[1], newit)
             return True, ('adt', ret_ty['id'], 1, (item,))
+        if P in ('core::slice::from_ref', 'core::slice::from_mut', 'core::slice::raw::from_ref', 'core::slice::raw::from_mut',
+                 'core::array::from_ref', 'core::array::from_mut'):
+            r = args[0]
+            if r[0] != 'ref':
+                raise Unsupported('from_ref of %s' % r[0])
+            return True, ('slice', r[1], K(USIZE, 0), K(USIZE, 1))
         if P == 'core::slice::<impl [T]>::fill':
             self.fill(st, args[0], args[1])
             return True, UNIT
@@ -1035,8 +1151,10 @@ class Interp:
 
     def as_iter(self, st, v, callee):
         """IntoIterator::into_iter of the kinds of value the models know."""
-        if v[0] == 'model' and v[1] in ('iter', 'zip'):
+        if v[0] == 'model' and v[1] in ('iter', 'zip', 'arrayiter', 'chunks'):
             return v
+        if v[0] == 'array':
+            return ('model', 'arrayiter', v, K(USIZE, 0))
         if v[0] in ('slice', 'ref'):
             return ('model', 'iter', self.as_slice(st, v), K(USIZE, 0))
         raise Unsupported('zip with an iterator of kind %s' % (v[1] if v[0] in ('model', 'adt') else v[0],))
@@ -1058,6 +1176,25 @@ class Interp:
                 eref = ('ref', (sl[1][0], sl[1][1] + (('i', self.add(sl[2], pos)),)))
                 return ('model', 'iter', sl, self.add(pos, K(USIZE, 1))), eref
             return it, None
+        if it[1] == 'chunks':
+            sl, size, pos, exact = it[2], it[3], it[4], it[5]
+            ln = self.slice_len(sl)
+            start = mk_lin(USIZE, pos[2] * size[2], {})
+            end = K(USIZE, (pos[2] + 1) * size[2])
+            if pos[2] > 300:
+                raise Unsupported('chunk loop does not terminate within 300 iterations')
+            if self.need(st, mk_cmp('Le', end, ln)):
+                item = ('slice', sl[1], self.add(sl[2], start), self.add(sl[2], end))
+                return ('model', 'chunks', sl, size, K(USIZE, pos[2] + 1), exact), item
+            if not exact and self.need(st, mk_cmp('Lt', start, ln)):
+                item = ('slice', sl[1], self.add(sl[2], start), sl[3])
+                return ('model', 'chunks', sl, size, K(USIZE, pos[2] + 1), exact), item
+            return it, None
+        if it[1] == 'arrayiter':
+            arr, pos = it[2], it[3]
+            if pos[2] < len(arr[1]):
+                return ('model', 'arrayiter', arr, K(USIZE, pos[2] + 1)), arr[1][pos[2]]
+            return it, None
         if it[1] == 'zip':
             na, ia = self.model_next(st, it[2])
             if ia is None:
@@ -1067,6 +1204,124 @@ class Interp:
                 return it, None
             return ('model', 'zip', na, nb), ('tuple', (ia, ib))
         raise Unsupported('next() on model %s' % it[1])
+
+    def closure_key_of(self, callee):
+        """The closure instance that a (modelled) higher-order core function calls: found in its own MIR."""
+        inst = self.prog.instances.get(callee['key'])
+        if inst is None:
+            raise Unsupported('no MIR for %s' % callee['path'])
+        keys = []
+        for b in inst['body']['blocks']:
+            tm = b['term']
+            if tm['k'] == 'call' and tm['callee'].get('key'):
+                ci = self.prog.instances.get(tm['callee']['key'])
+                if ci is not None and ci.get('closure'):
+                    keys.append(tm['callee']['key'])
+        keys = sorted(set(keys))
+        if len(keys) != 1:
+            raise Unsupported('cannot identify the closure called by %s (%d candidates)' % (callee['path'], len(keys)))
+        return keys[0]
+
+    def call_sync(self, st, key, args):
+        """Run a callee to its return inside a model. A fork inside it re-executes the whole modelled call."""
+        depth = len(st.frames)
+        self.push_frame(st, key, args, None, -1, None)
+        holder = []
+        guard = 0
+        while len(st.frames) > depth:
+            guard += 1
+            st.steps += 1
+            self.stats['steps'] += 1
+            if guard > 200000 or st.steps > self.max_steps:
+                raise Unsupported('step budget exhausted inside a closure call')
+            fr = st.frames[-1]
+            blk = fr.body['blocks'][fr.bb]
+            try:
+                if fr.si < len(blk['stmts']):
+                    s_ = blk['stmts'][fr.si]
+                    if s_['k'] != 'assign':
+                        raise Unsupported('statement %s' % s_.get('dbg', s_['k']))
+                    self.assign(st, fr, s_['place'], self.rvalue(st, fr, s_['rv']))
+                    fr.si += 1
+                    continue
+                tm = blk['term']
+                if tm['k'] == 'return' and len(st.frames) == depth + 1:
+                    holder.append(fr.locals.get(0, UNIT))
+                    st.frames.pop()
+                    break
+                self.terminator(st, fr, tm, None)
+            except BaseException:
+                del st.frames[depth:]
+                raise
+        return holder[0]
+
+    def iter_closure_method(self, st, meth, callee, args):
+        ckey = self.closure_key_of(callee)
+        ret_ty = self.prog.instances[callee['key']]['sig']['output']
+        itref = args[0]
+        by_value = itref[0] == 'model'
+        it = itref if by_value else self.read(st, itref[1])
+        if meth == 'fold':
+            acc, f = args[1], args[2]
+        else:
+            f = args[1]
+        # the closure is passed by value: keep it in a permanent slot so that `&mut f` has a target
+        slot = Frame()
+        slot.fid = st.next_fid
+        st.next_fid += 1
+        slot.key = callee['key']
+        slot.inst = self.prog.instances[callee['key']]
+        slot.body = slot.inst['body']
+        slot.locals = {0: f}
+        slot.bb = 0
+        slot.si = 0
+        slot.dest = None
+        slot.ret_bb = None
+        slot.call_span = None
+        st.perm[slot.fid] = slot
+        fref = ('ref', (('local', slot.fid, 0), ()))
+        n_ = 0
+        result = None
+        pos = 0
+        while True:
+            n_ += 1
+            if n_ > 300:
+                raise Unsupported('closure-driven loop does not terminate within 300 iterations')
+            newit, item = self.model_next(st, it)
+            if item is None:
+                break
+            it = newit
+            if meth == 'fold':
+                acc = self.call_sync(st, ckey, [fref, ('tuple', (acc, item))])
+            elif meth == 'for_each':
+                self.call_sync(st, ckey, [fref, ('tuple', (item,))])
+            elif meth in ('all', 'any'):
+                r = self.call_sync(st, ckey, [fref, ('tuple', (item,))])
+                if self.need(st, r) != (meth == 'all'):
+                    result = FALSE if meth == 'all' else TRUE
+                    break
+            elif meth == 'position':
+                r = self.call_sync(st, ckey, [fref, ('tuple', (item,))])
+                if self.need(st, r):
+                    result = ('adt', ret_ty['id'], 1, (K(USIZE, pos),))
+                    break
+                pos += 1
+            elif meth == 'find':
+                r = self.call_sync(st, ckey, [fref, ('tuple', (('ref', (('local', slot.fid, 1), ())),))]) if False else None
+                slot.locals[1] = item
+                r = self.call_sync(st, ckey, [fref, ('tuple', (('ref', (('local', slot.fid, 1), ())),))])
+                if self.need(st, r):
+                    result = ('adt', ret_ty['id'], 1, (item,))
+                    break
+        if not by_value:
+            self.write(st, itref[1], it)
+        if meth == 'fold':
+            return acc
+        if meth == 'for_each':
+            return UNIT
+        if meth in ('all', 'any'):
+            return result if result is not None else (TRUE if meth == 'all' else FALSE)
+        return result if result is not None else ('adt', ret_ty['id'], 0, ())
 
     def fill(self, st, sl, val):
         if sl[0] != 'slice':
@@ -1191,14 +1446,19 @@ class Interp:
         self.push_frame(st, entry_key, args, None, None, None)
         leaves = []
         work = [st]
+        start_steps = self.stats['steps']
         while work:
             s = work.pop()
+            if len(leaves) > self.max_leaves or self.stats['steps'] - start_steps > self.total_steps:
+                # analysis budget exhausted: fail closed with one unanalysable leaf for everything not explored
+                lf = self.make_leaf(s, 'unanalysable', panic=('budget', 'analysis budget exhausted (%d leaves, %d steps): paths of %s left unexplored' % (
+                    len(leaves), self.stats['steps'] - start_steps, entry_key)))
+                leaves.append(lf)
+                break
             try:
                 self.run_state(s, work, leaves, entry_key)
             except Infeasible:
                 continue
-            if len(leaves) > self.max_leaves:
-                raise Unsupported('more than %d leaves for %s' % (self.max_leaves, entry_key))
         for lf in leaves:
             lf.entry = label or entry_key
         return leaves, n_assumed
